@@ -628,6 +628,14 @@ _KEEP: list = []
 
 
 def native_call(interp, f, args, kwargs):
+    if isinstance(getattr(f, "__self__", None), str):
+        # string formatting of symbolic values (error messages): placeholders
+        args = ["<sym>" if is_sym(a) else a for a in args]
+        kwargs = {k: ("<sym>" if is_sym(v) else v) for k, v in kwargs.items()}
+        try:
+            return f(*args, **kwargs)
+        except (ValueError, TypeError, IndexError, KeyError):
+            return "<formatted>"
     sym = contains_sym(args) or contains_sym(kwargs)
     m = NP_MODELS.get(id(f))
     if m is not None and (sym or getattr(m, "always", False)):
@@ -763,15 +771,13 @@ def make_builtins(interp):
         return abs(x)
 
     def b_all(interp, it):
-        items = list(interp.iterate(it))
-        for x in items:
+        for x in interp.iterate(it):
             if not interp.truth(x):
                 return False
         return True
 
     def b_any(interp, it):
-        items = list(interp.iterate(it))
-        for x in items:
+        for x in interp.iterate(it):
             if interp.truth(x):
                 return True
         return False
@@ -952,7 +958,10 @@ def make_builtins(interp):
             if it.pos < len(it.items):
                 it.pos += 1
                 return it.items[it.pos - 1]
-        elif isinstance(it, list):   # eager generator expression
+        elif isinstance(it, LazyGen):
+            for x in it.gen:
+                return x
+        elif isinstance(it, list):   # eagerly evaluated iterable
             if it:
                 return it[0]
         else:
@@ -1019,6 +1028,16 @@ def _set_kind(f, kind):
     if isinstance(f, FuncVal):
         f.kind = kind
     return f
+
+
+class LazyGen:
+    """a generator expression: consumed lazily, once"""
+
+    def __init__(self, gen):
+        self.gen = gen
+
+    def __iter__(self):
+        return self.gen
 
 
 class _Iter:
